@@ -4,20 +4,15 @@ Helper lemmas for C15 (model: `Qx/Model/C15Ice.lean`, property theorems: `Qx/Pro
 -/
 namespace Qx.C15
 
-/-- A STUN datagram that carries a MESSAGE-INTEGRITY attribute which is not the valid one for its class is dropped:
-the state is returned unchanged and the only possible output is the "Bad message integrity" warning. -/
-theorem react_forged (s : St) (d : Datagram) (h : d.forged = true) :
-    (react s d).1 = s ∧ ∀ o ∈ (react s d).2, o = Out.warnBadMi := by
-  obtain ⟨src, kind⟩ := d
-  cases kind with
-  | nonStun p => simp [Datagram.forged] at h
-  | stun m =>
-    obtain ⟨cls, method, txid, mi, uc, role, prio, user⟩ := m
-    cases cls <;> cases mi <;> simp [Datagram.forged, validFor] at h <;>
-      simp only [react] <;> (repeat' split) <;> simp_all [decodeMi]
+/-- the two log-only outputs an unauthenticated datagram may cause -/
+def isIntegrityWarning : Out → Bool
+  | .warnBadMi => true
+  | .warnNoMi => true
+  | _ => false
 
-/-- with the fix, the same holds for every unauthenticated STUN datagram, and the only outputs are warnings -/
-theorem react_unauthenticated_fixed (s : St) (hfix : s.requireMi = true) (d : Datagram) (h : d.unauthenticated = true) :
+/-- A STUN datagram whose MESSAGE-INTEGRITY is not the valid one for its class (absent, wrong key, other password,
+truncated) is dropped: the state is returned unchanged and the only possible outputs are the two warnings. -/
+theorem react_unauthenticated (s : St) (d : Datagram) (h : d.unauthenticated = true) :
     (react s d).1 = s ∧ ∀ o ∈ (react s d).2, o = Out.warnBadMi ∨ o = Out.warnNoMi := by
   obtain ⟨src, kind⟩ := d
   cases kind with
@@ -27,31 +22,35 @@ theorem react_unauthenticated_fixed (s : St) (hfix : s.requireMi = true) (d : Da
     cases cls <;> cases mi <;> simp [Datagram.unauthenticated, validFor] at h <;>
       simp only [react] <;> (repeat' split) <;> simp_all [decodeMi]
 
-/-- one forged operation: state unchanged, outputs are only bad-integrity warnings -/
-theorem step_forged (s : St) (op : Op) (h : op.forged = true) :
-    (step s op).1 = s ∧ ∀ o ∈ (step s op).2, o = Out.warnBadMi := by
+/-- one unauthenticated operation: state unchanged, outputs are only integrity warnings -/
+theorem step_unauthenticated (s : St) (op : Op) (h : op.unauthenticated = true) :
+    (step s op).1 = s ∧ ∀ o ∈ (step s op).2, isIntegrityWarning o = true := by
   cases op with
-  | dgram d => exact react_forged s d h
-  | _ => simp [Op.forged] at h
+  | dgram d =>
+    have h1 := react_unauthenticated s d h
+    refine ⟨h1.1, ?_⟩
+    intro o ho
+    rcases h1.2 o ho with h2 | h2 <;> rw [h2] <;> rfl
+  | _ => simp [Op.unauthenticated] at h
 
-theorem filter_eq_nil_of_all_warn (l : List Out) (h : ∀ o ∈ l, o = Out.warnBadMi) :
-    l.filter (fun o => o != Out.warnBadMi) = [] := by
+theorem filter_eq_nil_of_all_warn (l : List Out) (h : ∀ o ∈ l, isIntegrityWarning o = true) :
+    l.filter (fun o => !isIntegrityWarning o) = [] := by
   rw [List.filter_eq_nil_iff]
   intro o ho
   simp [h o ho]
 
-/-- erasing the forged operations from a history changes neither the final state nor any output other than the
-bad-integrity warnings -/
-theorem run_erase_forged (ops : List Op) (s : St) :
-    (run s ops).1 = (run s (ops.filter fun o => !o.forged)).1 ∧
-    (run s ops).2.filter (fun o => o != Out.warnBadMi)
-      = (run s (ops.filter fun o => !o.forged)).2.filter (fun o => o != Out.warnBadMi) := by
+/-- erasing the unauthenticated operations from a history changes neither the final state nor any output other than the
+integrity warnings -/
+theorem run_erase_unauthenticated (ops : List Op) (s : St) :
+    (run s ops).1 = (run s (ops.filter fun o => !o.unauthenticated)).1 ∧
+    (run s ops).2.filter (fun o => !isIntegrityWarning o)
+      = (run s (ops.filter fun o => !o.unauthenticated)).2.filter (fun o => !isIntegrityWarning o) := by
   induction ops generalizing s with
   | nil => simp [run]
   | cons op ops ih =>
-    cases hf : op.forged with
+    cases hf : op.unauthenticated with
     | true =>
-      have h1 := step_forged s op hf
+      have h1 := step_unauthenticated s op hf
       simp only [run, List.filter_cons, hf, Bool.not_true, Bool.false_eq_true, if_false, List.filter_append]
       rw [h1.1, filter_eq_nil_of_all_warn _ h1.2, List.nil_append]
       exact ih s
@@ -60,13 +59,13 @@ theorem run_erase_forged (ops : List Op) (s : St) :
       have h2 := ih (step s op).1
       exact ⟨h2.1, by rw [h2.2]⟩
 
-/-- a history of forged operations only -/
-theorem run_all_forged (ops : List Op) (s : St) (h : ∀ op ∈ ops, op.forged = true) :
-    (run s ops).1 = s ∧ ∀ o ∈ (run s ops).2, o = Out.warnBadMi := by
+/-- a history of unauthenticated operations only -/
+theorem run_all_unauthenticated (ops : List Op) (s : St) (h : ∀ op ∈ ops, op.unauthenticated = true) :
+    (run s ops).1 = s ∧ ∀ o ∈ (run s ops).2, isIntegrityWarning o = true := by
   induction ops generalizing s with
   | nil => simp [run]
   | cons op ops ih =>
-    have h1 := step_forged s op (h op (by simp))
+    have h1 := step_unauthenticated s op (h op (by simp))
     have h2 := ih (step s op).1 (fun o ho => h o (by simp [ho]))
     simp only [run]
     refine ⟨h2.1.trans h1.1, ?_⟩
